@@ -246,7 +246,18 @@ func testErrors(n int) []jsonapi.Error {
 	var out []jsonapi.Error
 	for i := 0; i < n; i++ {
 		e := jsonapi.NewError()
-		switch i % 4 {
+		switch i % 7 {
+		case 4: // the library's own errors, as a handler passes them on (one has an empty source pointer)
+			e = jsonapi.NewErrUnknownFieldInBody("t1", "zz")
+		case 5:
+			e = jsonapi.NewErrMalformedFilterParameter("{\"f\":")
+			e.Links["about"] = ""
+			e.Meta["empty"] = ""
+			e.Meta["nested"] = map[string]any{"a": []any{}, "b": map[string]any{}}
+		case 6:
+			e.Status = "999" // not an HTTP status
+			e.Source["pointer"] = ""
+			e.Source["parameter"] = ""
 		case 0:
 			e.ID, e.Code, e.Status, e.Title, e.Detail = "e1", "c", "400", "T \"q\"", "d<>&é"
 			e.Links["about"] = "https://x.org/e?a=1&b=2"
@@ -843,7 +854,7 @@ func randDoc(rng *rand.Rand) dDoc {
 			d.Primary = append(d.Primary, randDocRes(rng, typ, ids[i]))
 		}
 	case "errors":
-		d.NErrors = 1 + rng.Intn(3)
+		d.NErrors = 1 + rng.Intn(7)
 		for i := rng.Intn(3); i > 0; i-- { // errors may come with data and included already set
 			d.Primary = append(d.Primary, randDocRes(rng, "t1", ids[i]))
 		}
